@@ -86,6 +86,22 @@ pub fn named_graphs() -> Vec<GraphSpec> {
         signature: vec![vec![1, 0], vec![1, 0], vec![1, -1], vec![0, 1], vec![0, 1]],
         name: "double_triangle".into(),
     });
+    // two disconnected bubbles, externals on both components, D=3, 2 loops
+    v.push(GraphSpec {
+        d: 3,
+        edges: vec![e(0, 1, false, 1.0), e(0, 1, false, 1.0), e(2, 3, false, 1.0), e(2, 3, false, 1.0)],
+        externals: vec![0, 1, 2, 3],
+        signature: vec![vec![1, 0], vec![1, 0], vec![0, 1], vec![0, 1]],
+        name: "two_bubbles_disconnected".into(),
+    });
+    // massless bubble carrying the externals + vacuum bubble with a massive line, D=3
+    v.push(GraphSpec {
+        d: 3,
+        edges: vec![e(0, 1, false, 1.0), e(0, 1, false, 1.0), e(7, 9, true, 1.0), e(9, 7, false, 1.0)],
+        externals: vec![0, 1],
+        signature: vec![vec![1, 0], vec![-1, 0], vec![0, 1], vec![0, 1]],
+        name: "bubble_plus_massive_vacuum_bubble".into(),
+    });
     // mercedes, D=3, 3 loops (as in the unit tests; unit weights)
     v.push(GraphSpec {
         d: 3,
@@ -373,7 +389,22 @@ pub fn random_sampling_graph(rng: &mut SplitMix, max_e: u64, max_loops: usize) -
             max_loops,
             allow_disconnected: rng.chance(1, 10),
         };
-        let (edges, ext) = random_topology(rng, &cfg);
+        let (mut edges, mut ext) = random_topology(rng, &cfg);
+        if rng.chance(1, 7) && edges.len() as u64 + 2 <= max_e {
+            // disjoint union with a second small component on fresh labels
+            let used: Vec<u8> = edges.iter().flat_map(|&(a, b)| [a, b]).chain(ext.iter().copied()).collect();
+            let fresh: Vec<u8> = (0..=255u8).rev().filter(|l| !used.contains(l)).take(3).collect();
+            let extra = rng.range(2, (max_e - edges.len() as u64).min(3));
+            for k in 0..extra {
+                let a = fresh[0];
+                let b = if k == 2 { fresh[2] } else { fresh[1] };
+                edges.push(if rng.chance(1, 2) { (a, b) } else { (b, a) });
+            }
+            if rng.chance(1, 2) {
+                ext.push(fresh[0]);
+                ext.push(fresh[1]);
+            }
+        }
         let l = loop_count(&edges);
         if l == 0 || l > max_loops {
             continue;
